@@ -5,7 +5,7 @@ SPEC = {
     "units": [
         {"name": "probes", "pkg": O4, "kind": "rapid", "run": "^TestVerifC03Probes$",
          "quick": {"checks": 500, "shards": 8, "timeout": 300},
-         "thorough": {"checks": 3000, "shards": 16, "timeout": 3000}},
+         "thorough": {"checks": 40000, "shards": 16, "timeout": 3000}},
     ],
 }
 
